@@ -1,6 +1,8 @@
 package command
 
 import (
+	"io"
+	"strings"
 	"time"
 
 	"github.com/v-byte-cpu/sx/pkg/scan/tcp"
@@ -553,4 +555,55 @@ func VerifH_C18_payloadRoundTrip() {
 		}
 	}
 	verifCover("done")
+}
+
+// VerifH_C18_portsFile: every ASCII file text of length L (newlines, '#', blanks included) through
+// the real parsePortsFile: refused, or exactly the list denoted by its non-comment lines.
+func VerifH_C18_portsFile() {
+	L := verifParam("L", 3)
+	b := ndBytes("f", L)
+	for _, c := range b {
+		verifAssume(c < 0x80 && c != '\r')
+	}
+	text := string(b)
+	rs, err := parsePortsFile(func() (io.ReadCloser, error) { return io.NopCloser(strings.NewReader(text)), nil })
+	if err != nil {
+		verifCover("rejected")
+		return
+	}
+	verifCover("accepted")
+	// reference reading: line by line, '#' starts a comment, blanks around the entry are ignored
+	var want [][2]uint64
+	for _, line := range splitByte(b, '\n') {
+		for i, c := range line {
+			if c == '#' {
+				line = line[:i]
+				break
+			}
+		}
+		for len(line) > 0 && line[0] == ' ' {
+			line = line[1:]
+		}
+		for len(line) > 0 && line[len(line)-1] == ' ' {
+			line = line[:len(line)-1]
+		}
+		if len(line) == 0 {
+			continue
+		}
+		parts := splitByte(line, '-')
+		lo, ok := refDecimal(parts[0], 65535)
+		verifAssert(ok, "ports file: accepted a start bound that is not a decimal number in 0..65535")
+		hi := lo
+		if len(parts) > 1 {
+			hi, ok = refDecimal(parts[1], 65535)
+			verifAssert(ok, "ports file: accepted an end bound that is not a decimal number in 0..65535")
+		}
+		want = append(want, [2]uint64{lo, hi})
+	}
+	verifAssert(len(rs) == len(want), "ports file: number of ranges differs from the number of entries written")
+	for i := range want {
+		if i < len(rs) {
+			verifAssert(rs[i] != nil && uint64(rs[i].StartPort) == want[i][0] && uint64(rs[i].EndPort) == want[i][1], "ports file: a range is not the entry written")
+		}
+	}
 }
